@@ -88,8 +88,7 @@ def parseRatTok (t : String) : Rat :=
   | [n] => (n.toInt! : Rat)
   | _ => 0
 
-def titrOf (cls : AA → Int) (pka : AA → Option (Int × Nat)) : PH.Titration :=
-  { cls := cls, pKa := fun a => match pka a with | some nd => (nd.1 : Rat) / (nd.2 : Rat) | none => 0 }
+def titrOf := PH.titrOf
 
 def specPalette : Palette := Spec.defaultPalette
 def genPalette : Palette := Gen.defaultPalette
@@ -285,6 +284,9 @@ def handle (cfg : Cfg) (st : St) (line : String) : St × String :=
   -- C14
   | ["parse", hex] => (st, outExcept (fun w => "str " ++ String.ofList w) (parseFile pyOps (unhex6 hex.toList)))
   | ["parse"] => (st, outExcept (fun w => "str " ++ String.ofList w) (parseFile pyOps []))
+  -- `parse2`: the harness reuses ONE parser object for every such line of a block; the model is a pure function
+  | ["parse2", hex] => (st, outExcept (fun w => "str " ++ String.ofList w) (parseFile pyOps (unhex6 hex.toList)))
+  | ["parse2"] => (st, outExcept (fun w => "str " ++ String.ofList w) (parseFile pyOps []))
   | "parseq" :: hex :: name :: args =>
     match parseFile pyOps (unhex6 hex.toList) with
     | .error e => (st, outExc e)
